@@ -2,7 +2,7 @@
    ONLY statements: each theorem is closed by `exact` of a lemma proved elsewhere and followed by Print Assumptions. *)
 From Coq Require Import ZArith NArith List Bool Lia Permutation.
 Import ListNotations.
-Require Import ImpSearch ImportProofs.
+Require Import ImpSearch ImportProofs ImpLoad.
 Open Scope Z_scope.
 Theorem search_is_classify  :
   forall lits t, search lits t = classify (all_paths lits t).
@@ -33,4 +33,29 @@ Theorem listing_order_irrelevant cur sub es es' :
   Permutation es es' -> search (cur :: sub) (TDir es) = search (cur :: sub) (TDir es').
 Proof. exact (ImportProofs.listing_order_irrelevant cur sub es es'). Qed.
 Print Assumptions listing_order_irrelevant.
+
+(* the registry as a state machine keyed by the FILE: once a route has produced the module object of a file, every later import by any route denoting the same file - after any imports in between - yields that same object, creates nothing and leaves the registry unchanged *)
+Theorem import_once (nexprs : N -> nat) fs s r1 o fr between r2 id :
+  denotes fs r1 = Some id -> denotes fs r2 = Some id -> (import nexprs) fs s r1 = (fst ((import nexprs) fs s r1), LObject o fr) ->
+  let s2 := (imports nexprs) fs (fst ((import nexprs) fs s r1)) between in
+  (import nexprs) fs s2 r2 = (s2, LObject o false).
+Proof. exact (ImpLoad.import_once nexprs fs s r1 o fr between r2 id). Qed.
+Print Assumptions import_once.
+
+Theorem registry_grows (nexprs : N -> nat) fs rs :
+  forall s k o, lookup (registry s) k = Some o -> lookup (registry ((imports nexprs) fs s rs)) k = Some o.
+Proof. exact (ImpLoad.registry_grows nexprs fs rs). Qed.
+Print Assumptions registry_grows.
+
+Theorem distinct_files_distinct_objects (nexprs : N -> nat) s :
+  wf s -> (forall a b o, a <> b -> lookup (registry s) a = Some o -> lookup (registry s) b = Some o -> False) ->
+  forall id, let s' := fst ((load nexprs) s id) in forall a b o, a <> b -> lookup (registry s') a = Some o -> lookup (registry s') b = Some o -> False.
+Proof. exact (ImpLoad.distinct_files_distinct_objects nexprs s). Qed.
+Print Assumptions distinct_files_distinct_objects.
+
+(* not found / ambiguous / empty / several expressions: no object, registry unchanged *)
+Theorem bad_modules_change_nothing (nexprs : N -> nat) fs s r res :
+  (import nexprs) fs s r = (fst ((import nexprs) fs s r), res) -> (forall o fr, res <> LObject o fr) -> fst ((import nexprs) fs s r) = s.
+Proof. exact (ImpLoad.bad_modules_change_nothing nexprs fs s r res). Qed.
+Print Assumptions bad_modules_change_nothing.
 
